@@ -289,6 +289,9 @@ type world struct {
 	// token of the request (drift writers stay unrestricted); refusals then arise naturally
 	aclMode  bool
 	agentTok string
+	// silent: monitor-only history (ids that collide under case folding are outside the model's
+	// assumptions, so its lines are not compared; the monitors still judge the implementation)
+	silent bool
 }
 
 func newFSM() *fsm.FSM {
@@ -329,6 +332,9 @@ func newWorldACL(run *hx.Run, nodeVal int, cfgTok, userTok string, aclMode bool,
 
 func (w *world) line(op, out string) {
 	w.ops = append(w.ops, op)
+	if w.silent {
+		return
+	}
 	w.run.Line(op, out)
 }
 
@@ -917,6 +923,43 @@ func (w *world) violate(sig, desc string) {
 	w.run.Violate(sig, desc, append([]string(nil), w.ops...))
 }
 
+const caseFoldSig = "case-fold:ids-differing-only-in-case-share-one-catalog-row"
+
+// violateID reports a violation about entry `id`; when another id of the same kind that equals it
+// ignoring case is in play (locally or in the catalog, before or after the sync) the cause is the
+// catalog's lower-cased index keys and the known signature for that shape is used.
+func (w *world) violateID(sig, desc, id string, svc bool, pre, post snap) {
+	twin := func(k string) bool { return k != id && strings.EqualFold(k, id) }
+	found := false
+	if svc {
+		for _, m := range []map[string]svcDef{pre.cs, post.cs} {
+			for k := range m {
+				found = found || twin(k)
+			}
+		}
+		for _, m := range []map[string]lsvc{pre.ls, post.ls} {
+			for k := range m {
+				found = found || twin(k)
+			}
+		}
+	} else {
+		for _, m := range []map[string]chkDef{pre.cc, post.cc} {
+			for k := range m {
+				found = found || twin(k)
+			}
+		}
+		for _, m := range []map[string]lchk{pre.lc, post.lc} {
+			for k := range m {
+				found = found || twin(k)
+			}
+		}
+	}
+	if found {
+		sig = caseFoldSig
+	}
+	w.violate(sig, desc)
+}
+
 func svcHeld(s snap, id string, d svcDef) bool {
 	r, ok := s.cs[id]
 	return ok && r.equal(d)
@@ -967,26 +1010,26 @@ func (w *world) monitors(kind string, pre, post snap, calls []call, clean bool, 
 		for id, e := range post.ls {
 			switch {
 			case !e.live():
-				w.violate("converge:service-deletion-left-pending", fmt.Sprintf("service %q is still pending deletion after a clean full sync", id))
+				w.violateID("converge:service-deletion-left-pending", fmt.Sprintf("service %q is still pending deletion after a clean full sync", id), id, true, pre, post)
 			case !e.inSync:
-				w.violate("converge:service-left-out-of-sync", fmt.Sprintf("service %q is out of sync after a clean full sync", id))
+				w.violateID("converge:service-left-out-of-sync", fmt.Sprintf("service %q is out of sync after a clean full sync", id), id, true, pre, post)
 			case !svcHeld(post, id, e.d):
-				w.violate("converge:service-missing-or-different-in-catalog", fmt.Sprintf("service %q: catalog does not hold the local definition after a clean full sync", id))
+				w.violateID("converge:service-missing-or-different-in-catalog", fmt.Sprintf("service %q: catalog does not hold the local definition after a clean full sync", id), id, true, pre, post)
 			}
 		}
 		for id := range post.cs {
 			if e, ok := post.ls[id]; (!ok || !e.live()) && id != structs.ConsulServiceID {
-				w.violate("converge:foreign-service-left-in-catalog", fmt.Sprintf("service %q is in the catalog but not registered locally after a clean full sync", id))
+				w.violateID("converge:foreign-service-left-in-catalog", fmt.Sprintf("service %q is in the catalog but not registered locally after a clean full sync", id), id, true, pre, post)
 			}
 		}
 		for id, e := range post.lc {
 			switch {
 			case !e.live():
-				w.violate("converge:check-deletion-left-pending", fmt.Sprintf("check %q is still pending deletion after a clean full sync", id))
+				w.violateID("converge:check-deletion-left-pending", fmt.Sprintf("check %q is still pending deletion after a clean full sync", id), id, false, pre, post)
 			case !e.inSync:
-				w.violate("converge:check-left-out-of-sync", fmt.Sprintf("check %q is out of sync after a clean full sync", id))
+				w.violateID("converge:check-left-out-of-sync", fmt.Sprintf("check %q is out of sync after a clean full sync", id), id, false, pre, post)
 			case !chkHeld(post, id, e.d):
-				w.violate("converge:check-missing-or-different-in-catalog", fmt.Sprintf("check %q: catalog does not hold the local definition after a clean full sync", id))
+				w.violateID("converge:check-missing-or-different-in-catalog", fmt.Sprintf("check %q: catalog does not hold the local definition after a clean full sync", id), id, false, pre, post)
 			}
 		}
 		for id, rc := range post.cc {
@@ -997,7 +1040,7 @@ func (w *world) monitors(kind string, pre, post snap, calls []call, clean bool, 
 						sig = "deleteService:prunes-pending-check-removal-of-check-bound-elsewhere-in-catalog"
 					}
 				}
-				w.violate(sig, fmt.Sprintf("check %q is in the catalog but not registered locally after a clean full sync", id))
+				w.violateID(sig, fmt.Sprintf("check %q is in the catalog but not registered locally after a clean full sync", id), id, false, pre, post)
 			}
 		}
 	}
@@ -1013,7 +1056,7 @@ func (w *world) monitors(kind string, pre, post snap, calls []call, clean bool, 
 					w.run.Tag("monitor:sound:refused-service-marked")
 					continue
 				}
-				w.violate("sound:service-marked-in-sync-but-not-in-catalog", fmt.Sprintf("%s sync marked service %q in sync although the catalog does not hold it and no ACL refusal happened", kind, id))
+				w.violateID("sound:service-marked-in-sync-but-not-in-catalog", fmt.Sprintf("%s sync marked service %q in sync although the catalog does not hold it and no ACL refusal happened", kind, id), id, true, pre, post)
 			}
 		}
 		for id, e := range post.lc {
@@ -1029,7 +1072,7 @@ func (w *world) monitors(kind string, pre, post snap, calls []call, clean bool, 
 					w.run.Tag("monitor:sound:refused-piggyback-marked")
 					continue
 				}
-				w.violate("sound:check-marked-in-sync-but-not-in-catalog", fmt.Sprintf("%s sync marked check %q in sync although the catalog does not hold it and no ACL refusal happened", kind, id))
+				w.violateID("sound:check-marked-in-sync-but-not-in-catalog", fmt.Sprintf("%s sync marked check %q in sync although the catalog does not hold it and no ACL refusal happened", kind, id), id, false, pre, post)
 			}
 		}
 	}
@@ -1202,6 +1245,11 @@ func (w *world) genOp(r *hx.RNG) op {
 		id := hx.Pick(r, svcPool)
 		if r.Chance(8) {
 			id = hx.Pick(r, namePool) + "-2"
+		}
+		for _, k := range sortedKeys(s.ls) { // now and then over a pending placeholder (known nil dereference)
+			if s.ls[k].ghost && r.Chance(12) {
+				id = k
+			}
 		}
 		d := genSvcDef(r)
 		if e, ok := s.ls[id]; ok && !e.ghost && r.Chance(35) {
@@ -1444,6 +1492,26 @@ func scripted(run *hx.Run) {
 		w.exec(op{kind: "partial"})
 		w.exec(op{kind: "dsvc", id: "api", sd: api})
 		w.finishCase()
+	}
+	// 8. (monitor only) ids that differ only in case: the catalog lower-cases ids in its index keys, the
+	//    agent's maps do not. Known finding; outside the model's assumptions, so no lines are compared.
+	{
+		w := newWorld(run, 1, "", "")
+		w.silent = true
+		w.exec(op{kind: "addsvc", id: "Web", sd: svcDef{name: "web", port: 80}})
+		w.exec(op{kind: "addsvc", id: "web", sd: svcDef{name: "web", port: 81}})
+		w.exec(op{kind: "full"})
+		w.exec(op{kind: "full"})
+		run.Case("case-fold-two-local-ids", true)
+		w = newWorld(run, 1, "", "")
+		w.silent = true
+		w.exec(op{kind: "addsvc", id: "Api", sd: svcDef{name: "api", port: 80}})
+		w.exec(op{kind: "full"})
+		w.exec(op{kind: "dsvc", id: "API", sd: svcDef{name: "api", port: 81}})
+		w.exec(op{kind: "full"})
+		w.exec(op{kind: "full"})
+		run.Case("case-fold-foreign-variant", true)
+		run.Tag("case-fold-scenario(monitor-only)")
 	}
 }
 
